@@ -416,7 +416,7 @@ Section Resolvers.
 End Resolvers.
 
 (* ====================================================================================== *)
-(* 4. The implementer edge (F18)                                                            *)
+(* 4. The implementer edge (F18, repaired in /repo by 00e79dd)                              *)
 (* ====================================================================================== *)
 Lemma perm_filter {A} (p : A -> bool) l l' : Permutation l l' -> Permutation (filter p l) (filter p l').
 Proof.
@@ -443,17 +443,45 @@ Proof.
   unfold sort_types. induction l as [|t r IH]; cbn [fold_right]; [constructor|].
   transitivity (t :: fold_right tins [] r); [apply tins_perm | now constructor].
 Qed.
+Lemma filter_map_comm {A B} (h : A -> B) (p : B -> bool) l : filter p (map h l) = map h (filter (fun x => p (h x)) l).
+Proof. induction l as [|x r IH]; cbn [map filter]; [reflexivity|]. destruct (p (h x)); cbn [map]; now rewrite IH. Qed.
+Lemma filter_filter {A} (p q : A -> bool) l : filter p (filter q l) = filter (fun x => q x && p x) l.
+Proof.
+  induction l as [|x r IH]; cbn [filter]; [reflexivity|].
+  destruct (q x); cbn [filter andb]; [destruct (p x)|]; now rewrite IH.
+Qed.
+Lemma filter_none {A} (p : A -> bool) l : (forall x, In x l -> p x = false) -> filter p l = [].
+Proof.
+  induction l as [|x r IH]; intros H; cbn [filter]; [reflexivity|].
+  rewrite (H x (or_introl eq_refl)). apply IH. intros; apply H; now right.
+Qed.
+Lemma mem_in n l : mem n l = true <-> In n l.
+Proof.
+  unfold mem. rewrite existsb_exists. split.
+  - intros (x & Hx & Ex). apply String.eqb_eq in Ex. now subst x.
+  - intros H. exists n. split; [exact H | apply String.eqb_refl].
+Qed.
 
 Section Implementer.
   Variable s : schema.
   Hypothesis W : wf_schema s.
 
+  (* `Schema::subtypes(t)` keeps u: u is t or lists t in its `implements` *)
   Definition is_subtype_of (t u : tdef) : bool := String.eqb (t_name u) (t_name t) || mem (t_name t) (t_impl u).
+  (* ... and the resolver then drops t's own name *)
+  Definition is_implementer_of (t u : tdef) : bool := is_subtype_of t u && negb (String.eqb (t_name u) (t_name t)).
+
+  Lemma is_implementer_of_eq t u :
+    is_implementer_of t u = negb (String.eqb (t_name u) (t_name t)) && mem (t_name t) (t_impl u).
+  Proof.
+    unfold is_implementer_of, is_subtype_of.
+    destruct (String.eqb (t_name u) (t_name t)), (mem (t_name t) (t_impl u)); reflexivity.
+  Qed.
 
   (* the rows the model computes: as the specification, but in `Schema::subtypes` (name-sorted) order *)
   Definition implementer_rows : list row :=
     flat_map (fun t => map (fun u => [Str (t_name t); Str (t_name u)])
-                           (filter (is_subtype_of t) (sort_types (sc_types s)))) (visible_types s).
+                           (filter (is_implementer_of t) (sort_types (sc_types s)))) (visible_types s).
 
   Lemma q_implementer_eq : q_implementer s = Ok implementer_rows.
   Proof.
@@ -462,7 +490,10 @@ Section Implementer.
     change (nbrs s "VertexType" "implementer" HNone (SVType t)) with (implementer_edge s (SVType t)).
     unfold implementer_edge. cbn [as_vertex_type bind]. unfold subtypes.
     assert (Hh : shas s (t_name t) = true) by (apply has_type_true; now exists t).
-    rewrite Hh. rewrite flat_map_map.
+    rewrite Hh. rewrite filter_map_comm, filter_filter. fold (is_subtype_of t).
+    change (filter (fun x => is_subtype_of t x && negb (String.eqb (t_name x) (t_name t))))
+      with (filter (is_implementer_of t)).
+    rewrite flat_map_map.
     rewrite (flat_map_ext_in _ (fun d => [SVType d])).
     - rewrite flat_map_single. cbn [bind].
       rewrite (rflat_map_ok _ _ (fun u => [[Str (t_name u)]])) by (intros; reflexivity).
@@ -475,25 +506,27 @@ Section Implementer.
   Proof.
     exists implementer_rows. split; [apply q_implementer_eq|].
     unfold implementer_rows, spec_implementer_actual. apply perm_flat_map_pointwise. intros t _.
-    apply Permutation_map. apply perm_filter. apply sort_types_perm.
+    apply Permutation_map.
+    rewrite (filter_ext _ _ (is_implementer_of_eq t)).
+    apply perm_filter. apply sort_types_perm.
   Qed.
 
   (* relational reading of the two specifications *)
   Lemma spec_implementer_actual_iff n m :
     In [Str n; Str m] (spec_implementer_actual s) <->
     exists t u, In t (visible_types s) /\ In u (sc_types s) /\ t_name t = n /\ t_name u = m /\
-                (m = n \/ In n (t_impl u)).
+                m <> n /\ In n (t_impl u).
   Proof.
     unfold spec_implementer_actual. rewrite in_flat_map. split.
     - intros (t & Ht & Hr). apply in_map_iff in Hr. destruct Hr as (u & [= <- <-] & Hu).
       apply filter_In in Hu. destruct Hu as [Hu Hp]. exists t, u. repeat split; auto.
-      apply orb_prop in Hp. destruct Hp as [Hp|Hp]; [left; now apply String.eqb_eq|right].
-      unfold mem in Hp. apply existsb_exists in Hp. destruct Hp as (x & Hx & Ex).
-      apply String.eqb_eq in Ex. now subst x.
-    - intros (t & u & Ht & Hu & <- & <- & Hor). exists t. split; [exact Ht|].
+      + apply andb_prop in Hp. destruct Hp as [Hp _]. apply Bool.negb_true_iff in Hp.
+        now apply String.eqb_neq in Hp.
+      + apply andb_prop in Hp. destruct Hp as [_ Hp]. now apply mem_in.
+    - intros (t & u & Ht & Hu & <- & <- & Hne & Hi). exists t. split; [exact Ht|].
       apply in_map_iff. exists u. split; [reflexivity|]. apply filter_In. split; [exact Hu|].
-      apply orb_true_intro. destruct Hor as [E|Hi]; [left; now apply String.eqb_eq|right].
-      unfold mem. apply existsb_exists. exists (t_name t). split; [exact Hi | apply String.eqb_refl].
+      apply andb_true_intro. split; [|now apply mem_in].
+      apply Bool.negb_true_iff. now apply String.eqb_neq.
   Qed.
 
   Lemma spec_implementer_documented_iff n m :
@@ -505,39 +538,87 @@ Section Implementer.
     - intros (t & Ht & Hr). destruct (is_interface t) eqn:Ei; [|destruct Hr].
       apply in_map_iff in Hr. destruct Hr as (u & [= <- <-] & Hu).
       apply filter_In in Hu. destruct Hu as [Hu Hp]. exists t, u. repeat split; auto.
-      unfold mem in Hp. apply existsb_exists in Hp. destruct Hp as (x & Hx & Ex).
-      apply String.eqb_eq in Ex. now subst x.
+      now apply mem_in.
     - intros (t & u & Ht & Hu & <- & <- & Hi & Hin). exists t. split; [exact Ht|]. rewrite Hi.
       apply in_map_iff. exists u. split; [reflexivity|]. apply filter_In. split; [exact Hu|].
-      unfold mem. apply existsb_exists. exists (t_name t). split; [exact Hin | apply String.eqb_refl].
+      now apply mem_in.
   Qed.
 
-  (* F18, general form: every enumerable type is its own implementer *)
-  Theorem implementer_includes_self t : In t (visible_types s) ->
-    In [Str (t_name t); Str (t_name t)] (spec_implementer_actual s).
+  (* F18 repaired, general form: no type is reported as its own implementer (needs no hypothesis on s) *)
+  Theorem implementer_excludes_self n : ~ In [Str n; Str n] (spec_implementer_actual s).
   Proof.
-    intros Ht. apply spec_implementer_actual_iff. exists t, t. repeat split; auto.
-    now apply (visible_in s).
+    unfold spec_implementer_actual. rewrite in_flat_map. intros (t & _ & Hr).
+    apply in_map_iff in Hr. destruct Hr as (u & [= <- E] & Hu).
+    apply filter_In in Hu. destruct Hu as [_ Hp]. apply andb_prop in Hp. destruct Hp as [Hp _].
+    rewrite <- E, String.eqb_refl in Hp. discriminate.
   Qed.
 
-  (* ... and that is the only difference from the documentation *)
+  (* whatever is implemented is a visible (non-root) interface or the root: the type t with that name *)
+  Lemma implemented_is_interface t u : In t (sc_types s) -> In u (sc_types s) -> In (t_name t) (t_impl u) ->
+    is_interface t = true.
+  Proof.
+    intros Ht Hu Hi. destruct (w_impl s W u (t_name t) Hu Hi) as (it & Hit & Hitn & Hii).
+    assert (it = t) as ->; [|exact Hii].
+    pose proof (sget_in s it W Hit) as E1. pose proof (sget_in s t W Ht) as E2.
+    rewrite Hitn in E1. congruence.
+  Qed.
+
+  (* the exact difference from the documentation on a well-formed schema: the documented relation has,
+     in addition, the row (n, n) of an interface that lists ITSELF in its `implements` *)
   Theorem implementer_actual_vs_documented n m :
-    In [Str n; Str m] (spec_implementer_actual s) <->
-    In [Str n; Str m] (spec_implementer_documented s) \/ (m = n /\ exists t, In t (visible_types s) /\ t_name t = n).
+    In [Str n; Str m] (spec_implementer_documented s) <->
+    In [Str n; Str m] (spec_implementer_actual s) \/
+    (m = n /\ exists t, In t (visible_types s) /\ t_name t = n /\ In n (t_impl t)).
   Proof.
     rewrite spec_implementer_actual_iff, spec_implementer_documented_iff. split.
-    - intros (t & u & Ht & Hu & Hn & Hm & [E|Hi]).
-      + right. split; [exact E|]. now exists t.
+    - intros (t & u & Ht & Hu & Hn & Hm & Hi & Hin).
+      destruct (string_dec m n) as [E|NE].
+      + right. split; [exact E|]. exists t. split; [exact Ht|]. split; [exact Hn|].
+        assert (u = t) as ->; [|exact Hin].
+        pose proof (sget_in s u W Hu) as E1. pose proof (sget_in s t W (visible_in s t Ht)) as E2.
+        rewrite Hm, E in E1. rewrite Hn in E2. congruence.
       + left. exists t, u. repeat split; auto.
-        destruct (w_impl s W u n Hu Hi) as (it & Hit & Hitn & Hii).
-        assert (it = t) as ->; [|exact Hii].
-        pose proof (sget_in s it W Hit) as E1. pose proof (sget_in s t W (visible_in s t Ht)) as E2.
-        rewrite Hitn in E1. rewrite Hn in E2. congruence.
-    - intros [(t & u & Ht & Hu & Hn & Hm & _ & Hi)|[-> (t & Ht & Hn)]].
-      + exists t, u. repeat split; auto.
-      + exists t, t. repeat split; auto. now apply (visible_in s).
+    - intros [(t & u & Ht & Hu & Hn & Hm & _ & Hi)|[-> (t & Ht & Hn & Hi)]].
+      + exists t, u. repeat split; auto. subst n.
+        now apply (implemented_is_interface t u (visible_in s t Ht) Hu).
+      + exists t, t. pose proof (visible_in s t Ht) as Ht'. repeat split; auto. subst n.
+        now apply (implemented_is_interface t t Ht' Ht').
   Qed.
+
+  (* no type lists itself in its `implements` (a consequence of validity: no implementation cycles) *)
+  Definition no_self_impl : Prop := forall t, In t (sc_types s) -> ~ In (t_name t) (t_impl t).
+
+  (* F18 repaired: on such a schema the code's relation IS the documented one, as lists *)
+  Theorem implementer_actual_eq_documented : no_self_impl ->
+    spec_implementer_actual s = spec_implementer_documented s.
+  Proof.
+    intros NS. unfold spec_implementer_actual, spec_implementer_documented.
+    apply flat_map_ext_in. intros t Ht. apply (visible_in s) in Ht.
+    destruct (is_interface t) eqn:Ei.
+    - f_equal. apply filter_ext_in. intros u Hu.
+      destruct (mem (t_name t) (t_impl u)) eqn:Em; [|apply Bool.andb_false_r].
+      rewrite Bool.andb_true_r. apply Bool.negb_true_iff. apply String.eqb_neq. intros E.
+      apply mem_in in Em. rewrite <- E in Em. exact (NS u Hu Em).
+    - rewrite filter_none; [reflexivity|]. intros u Hu.
+      apply Bool.andb_false_iff. right.
+      destruct (mem (t_name t) (t_impl u)) eqn:Em; [|reflexivity]. apply mem_in in Em.
+      rewrite (implemented_is_interface t u Ht Hu Em) in Ei. discriminate.
+  Qed.
+
+  Theorem q_implementer_documented : no_self_impl ->
+    exists rows, q_implementer s = Ok rows /\ Permutation rows (spec_implementer_documented s).
+  Proof. intros NS. rewrite <- (implementer_actual_eq_documented NS). exact q_implementer_perm. Qed.
 End Implementer.
+
+(* valid schemas have no self-implementing type *)
+Theorem valid_no_self_impl d : valid_schema d -> no_self_impl (schema_of_doc d).
+Proof.
+  intros (q & root & _ & _ & _ & _ & R) t Ht Hi. cbn [schema_of_doc sc_types] in Ht.
+  destruct (r_acyclic _ _ R) as (rank & Hr).
+  assert (D : defined (doc_types d) (t_name t)).
+  { destruct (r_implements_interfaces _ _ R t (t_name t) Ht Hi) as (it & Hd & _). now exists it. }
+  pose proof (Hr t (t_name t) Ht Hi D). lia.
+Qed.
 
 (* ====================================================================================== *)
 (* 5. Relational reading of the other specifications                                        *)
@@ -894,15 +975,17 @@ Proof. vm_compute. reflexivity. Qed.
 Lemma wit_not_known : ~ Known wit_doc.
 Proof. unfold Known. vm_compute. discriminate. Qed.
 
-(* F18: Vowel is an object type, yet its implementer edge is not empty *)
-Theorem implementer_documented_refuted :
-  exists rows, q_implementer wit = Ok rows /\
-               In [Str "Vowel"; Str "Vowel"] rows /\
-               ~ In [Str "Vowel"; Str "Vowel"] (spec_implementer_documented wit) /\
-               (exists t, sget wit "Vowel" = Some t /\ is_interface t = false).
+(* F18 regression (repaired in /repo by 00e79dd): Vowel is an object type implementing Letter; the model
+   used to answer (Letter, Letter), (Letter, Vowel), (Vowel, Vowel); now only the documented row is left *)
+Example implementer_regression :
+  q_implementer wit = Ok [[Str "Letter"; Str "Vowel"]] /\
+  ~ In [Str "Vowel"; Str "Vowel"] [[Str "Letter"; Str "Vowel"]] /\
+  spec_implementer_documented wit = [[Str "Letter"; Str "Vowel"]] /\
+  (exists t, sget wit "Vowel" = Some t /\ is_interface t = false).
 Proof.
-  eexists. split; [vm_compute; reflexivity|]. split; [vm_compute; tauto|]. split.
-  - vm_compute. intros [H|[]]. discriminate.
+  split; [vm_compute; reflexivity|]. split; [|split].
+  - intros [H|[]]. discriminate.
+  - vm_compute. reflexivity.
   - eexists. split; vm_compute; reflexivity.
 Qed.
 
@@ -938,6 +1021,9 @@ Section Statements.
   Proof. apply answers_of_eq. now apply q_implements_eq. Qed.
   Theorem intro_implementer_exact : answers (q_implementer s) (spec_implementer_actual s).
   Proof. now apply q_implementer_perm. Qed.
+  (* the DOCUMENTED relation, when moreover no type implements itself (true of every valid schema) *)
+  Theorem intro_implementer_documented : no_self_impl s -> answers (q_implementer s) (spec_implementer_documented s).
+  Proof. now apply q_implementer_documented. Qed.
   Theorem intro_props_exact : answers (q_properties s) (spec_properties s).
   Proof. apply answers_of_eq. now apply q_properties_eq. Qed.
   Theorem intro_edges_exact : answers (q_edges s) (spec_edges s).
@@ -959,7 +1045,7 @@ Theorem introspection_exact d : valid_schema d -> ~ Known d ->
   let s := schema_of_doc d in
   answers (q_types s) (spec_types s) /\
   answers (q_implements s) (spec_implements s) /\
-  answers (q_implementer s) (spec_implementer_actual s) /\
+  answers (q_implementer s) (spec_implementer_documented s) /\
   answers (q_properties s) (spec_properties s) /\
   answers (q_edges s) (spec_edges s) /\
   answers (q_params s) (spec_params s) /\
@@ -970,7 +1056,7 @@ Proof.
   repeat split.
   - now apply intro_types_exact.
   - now apply intro_implements_exact.
-  - now apply intro_implementer_exact.
+  - apply intro_implementer_documented; [exact W | now apply valid_no_self_impl].
   - now apply intro_props_exact.
   - now apply intro_edges_exact.
   - now apply intro_params_exact.
@@ -978,15 +1064,15 @@ Proof.
   - now apply intro_entry_params_exact.
 Qed.
 
-(* the documented implementer relation is refuted on a valid schema *)
-Theorem intro_implementer_refuted :
-  exists d, valid_schema d /\ ~ Known d /\
-    exists rows, q_implementer (schema_of_doc d) = Ok rows /\
-      ~ (forall r, In r rows <-> In r (spec_implementer_documented (schema_of_doc d))).
+(* F18 repaired: on every valid schema the implementer query answers the DOCUMENTED relation, and the
+   relation the code computes is literally the documented one *)
+Theorem intro_implementer_valid d : valid_schema d -> ~ Known d ->
+  answers (q_implementer (schema_of_doc d)) (spec_implementer_documented (schema_of_doc d)) /\
+  spec_implementer_actual (schema_of_doc d) = spec_implementer_documented (schema_of_doc d).
 Proof.
-  exists wit_doc. split; [exact wit_valid|]. split; [exact wit_not_known|].
-  destruct implementer_documented_refuted as (rows & E & Hin & Hnot & _).
-  exists rows. split; [exact E|]. intros H. apply Hnot. now apply H.
+  intros V K. pose proof (valid_wf d V K) as W. pose proof (valid_no_self_impl d V) as NS. split.
+  - now apply intro_implementer_documented.
+  - now apply implementer_actual_eq_documented.
 Qed.
 
 Example wit_params :
